@@ -51,10 +51,15 @@ class DomRoles(object):
                     if pr and pr.get('get') is not None:
                         g = pr['get']
                         me = g.params()[0] if g.params() else 'self'
+                        local = {}
                         for x in _ast.walk(g.node):
-                            if isinstance(x, _ast.Return) and isinstance(x.value, _ast.Attribute) and isinstance(x.value.value, _ast.Name) \
-                                    and x.value.value.id == me:
-                                found.add(x.value.attr)
+                            if isinstance(x, _ast.Assign) and len(x.targets) == 1 and isinstance(x.targets[0], _ast.Name):
+                                local[x.targets[0].id] = x.value
+                        for x in _ast.walk(g.node):
+                            if isinstance(x, _ast.Return) and x.value is not None:
+                                v_ = local.get(x.value.id, x.value) if isinstance(x.value, _ast.Name) else x.value
+                                if isinstance(v_, _ast.Attribute) and isinstance(v_.value, _ast.Name) and v_.value.id == me:
+                                    found.add(v_.attr)
             if len(found) != 1:
                 raise AnalysisError('backing attribute of the content property not identified (candidates %s)' % sorted(found))
             self._content_slot = found.pop()
